@@ -11,6 +11,7 @@ import (
 	"io"
 	"math/rand"
 	"net"
+	"os"
 	"runtime"
 	"sort"
 	"sync"
@@ -547,6 +548,15 @@ func (r *readerRun) run(stream []byte) (evs []Ev) {
 		ferr = io.EOF
 	case "timeout":
 		ferr = &xport.TimeoutErr{Msg: "script: read timeout"}
+	case "ueof":
+		// what crypto/tls reports when the peer closes TCP without close_notify
+		ferr = io.ErrUnexpectedEOF
+		r.xerr = ferr
+	case "cpipe":
+		ferr = io.ErrClosedPipe
+		r.xerr = ferr
+	case "osdl":
+		ferr = os.ErrDeadlineExceeded
 	default:
 		ferr = errors.New("script: injected read error")
 		r.xerr = ferr
